@@ -3,6 +3,7 @@ CONSTANTS
   Orders <- OrdersAll
   Dts <- DtsQ
   Targets <- TargQ
+  TsTargets <- TargQ
   MaxTs = 1
   PublicQueue = FALSE
   LeftRenormSite = 1
